@@ -25,7 +25,8 @@ UTILS = "a5/core/utils.py"
 def int_const(interp: Interp, rel: str, name: str) -> int:
     v = interp.module_env(rel).get(name)
     if not (isinstance(v, Lin) and v.is_const()):
-        raise core.AnalysisError(f"module constant {name} of {rel} is not a foldable integer (got {v!r})")
+        from .absint import _Unmodelled
+        raise _Unmodelled(f"module constant {name} of {rel} is not a foldable integer (got {v!r})")
     return v.const
 
 
